@@ -378,6 +378,12 @@ func (cv1 *HookConfigV1) CheckOnKubernetesEvent(kubeCfg OnKubernetesEventConfigV
 		}
 	}
 
+	if kubeCfg.Namespace != nil && kubeCfg.Namespace.LabelSelector != nil {
+		if _, err := kubeeventsmanager.FormatLabelSelector(kubeCfg.Namespace.LabelSelector); err != nil {
+			allErr = multierror.Append(allErr, fmt.Errorf("namespace.labelSelector is invalid: %w", err))
+		}
+	}
+
 	if kubeCfg.FieldSelector != nil {
 		if _, err := kubeeventsmanager.FormatFieldSelector((*kemtypes.FieldSelector)(kubeCfg.FieldSelector)); err != nil {
 			allErr = multierror.Append(allErr, fmt.Errorf("fieldSelector is invalid: %w", err))
